@@ -289,9 +289,10 @@ def property_oracle(f, info, spec, g, Macc, n_given, fail, tags, label):
 
 # ------------------------------------------------------------------ cases
 def cases(rng, tier):
-    nh = 70 if tier == "quick" else 700
+    nh = 260 if tier == "quick" else 2400
     for k in range(nh):
-        spec = gen_field_spec(rng, nmin=rng.choice([1, 2, 3]), nmax=5, max_cells=60 if tier == "quick" else 90)
+        big = rng.random() < 0.35
+        spec = gen_field_spec(rng, nmin=3 if big else rng.choice([1, 2, 3]), nmax=6 if big else 5, max_cells=120 if big else 60)
         ops = []
         for _ in range(rng.choice([1, 1, 2, 2, 3, 4])):
             r = rng.random()
@@ -306,7 +307,7 @@ def cases(rng, tier):
                 n = None
                 if rng.random() < 0.5:
                     n = [rng.randint(1, 6) for _ in range(3)]
-                    while int(np.prod(n)) > (70 if tier == "quick" else 120):
+                    while int(np.prod(n)) > 90:
                         n[rng.randrange(3)] -= 1
                 ops.append(dict(t="rotate", rot=gen_rot(rng), n=n))
         if all(o["t"] == "clear" or o.get("bad") for o in ops):
@@ -317,13 +318,13 @@ def cases(rng, tier):
     for q in LATTICE_QUATS:
         lat.setdefault(str(quat_matrix(q[0], q[1], q[2], q[3])), q)
     lat = sorted(lat.values())
-    for q in (lat if tier == "thorough" else rng.sample(lat, 8)):
+    for q in (lat * 3 if tier == "thorough" else rng.sample(lat, 12)):
         spec = gen_field_spec(rng, nmin=2, nmax=4, max_cells=48, cubic=True)
         yield dict(kind="quarter", field=spec, quat=list(q), method=rng.choice(["quat", "matrix", "rotvec", "euler:xyz"]))
-    for k in range(25 if tier == "quick" else 200):
+    for k in range(60 if tier == "quick" else 500):
         spec = gen_field_spec(rng, nmin=1, nmax=4, max_cells=40)
         yield dict(kind="interp", field=spec, sub=rng.getrandbits(30), npts=40)
-    for k in range(25 if tier == "quick" else 150):
+    for k in range(60 if tier == "quick" else 400):
         yield dict(kind="refuse", why=rng.choice(["nvdim", "nvdim", "ndim", "ndim", "nomap", "partial", "baddim", "noninj", "fine"]),
                    sub=rng.getrandbits(30), rot=gen_rot(rng))
 
